@@ -214,6 +214,7 @@ ENGINES["orswot"]["configs"]["quick"] += [orcfg("orswot_misuse.cfg", flags=("--v
 ENGINES["orswot"]["configs"]["quick"] += [orcfg("orswot_misuse3.cfg", flags=("--vm-only", "--shared-actor"), inv=["TypeOK", "ValidateMergeFlags", "ValidateMergeSym"])]
 ENGINES["map_or"]["configs"]["quick"] += [{"cfg": "map_or_misuse.cfg", "module": "MC_Map.tla", "flags": ["--vm-only", "--shared-actor", "--m", "2", "--k", "2"], "invariants": ["TypeOK"]}]
 ENGINES["map_or"]["configs"]["quick"] += [{"cfg": "map_or_misuse3.cfg", "module": "MC_Map.tla", "flags": ["--vm-only", "--shared-actor", "--m", "2", "--k", "2"], "invariants": ["TypeOK"]}]   # nested half of Map::validate_merge
+ENGINES["map_or"]["configs"]["quick"] += [{"cfg": "map_or_misuse4.cfg", "module": "MC_Map.tla", "flags": ["--vm-only", "--shared-actor", "--m", "2", "--k", "2"], "invariants": ["TypeOK"]}]   # ... with ordered top clocks (H17-A)
 ENGINES["map_mv"]["configs"]["quick"] += [{"cfg": "map_mv_misuse.cfg", "module": "MC_Map.tla", "flags": ["--vm-only", "--shared-actor", "--m", "1", "--k", "2"], "invariants": ["TypeOK"]}]
 
 # ---- a saved (stale) snapshot merged later, for the other state-replicated types ----------------------
